@@ -181,6 +181,7 @@ def run_stream(mod, obs: Observer, tier: str, seed: int, shard: int, nshards: in
             break
         obs.begin(idx, case)
         signal.alarm(case_timeout)
+        nbroken = len(contracts.BROKEN) if contracts is not None else 0
         try:
             mod.run_case(case, obs)
         except Exception:  # noqa: BLE001
@@ -188,6 +189,9 @@ def run_stream(mod, obs: Observer, tier: str, seed: int, shard: int, nshards: in
             obs.exception(traceback.format_exc(), sys.exc_info())
         finally:
             signal.alarm(0)
+        if contracts is not None and len(contracts.BROKEN) > nbroken:
+            obs.violation("contract_broken", count=len(contracts.BROKEN) - nbroken, first=contracts.BROKEN[nbroken][:1200])
+            del contracts.BROKEN[200:]
         obs.end()
     if contracts is not None:
         for name, n in contracts.COUNTS.items():
